@@ -480,6 +480,8 @@ class StmtOps:
             st.env[name] = self.fresh_like(name, st.env[name], types.get(name))
         items = list(ann.get('modifies', []))
         covered = set()
+        if any(' if ' in it for it in items):
+            raise Unsupported('guarded modifies items are for contracts, not for loop annotations', node)
         for it in items:
             if not (it.startswith('dict(') or it.startswith('list(') or it.startswith('ghost:') or it.startswith('heap:')
                     or it.startswith('fresh:') or it == 'alloc'):
